@@ -358,6 +358,41 @@ func arr2(rows ...tok) tok {
 	})
 }
 
+// cpx: #C(re im) — both parts real numbers; the denotation is the complex of their double values.
+func cpx(open string, re, im tok) tok {
+	return seq("complex", open, "##(", []tok{re, im}, func(ds []*cv) *cv { return cvComplex(ds) })
+}
+
+// cvComplex: the complex number made of two real denotations (nil when a part is not a real number in
+// the configuration at hand, e.g. the digit 2 under *read-base* 2).
+func cvComplex(ds []*cv) *cv {
+	if len(ds) != 2 {
+		return nil
+	}
+	var parts []*cv
+	for _, d := range ds {
+		var f float64
+		switch d.k {
+		case "fix", "big", "sf", "df", "lf":
+			v, err := strconv.ParseFloat(d.s, 64)
+			if err != nil {
+				return nil
+			}
+			f = v
+		case "ratio":
+			r, ok := new(big.Rat).SetString(d.s)
+			if !ok {
+				return nil
+			}
+			f, _ = r.Float64()
+		default:
+			return nil
+		}
+		parts = append(parts, leaf("df", fmtF(f, 64)))
+	}
+	return &cv{k: "cpx", kids: parts}
+}
+
 // quoted: ' ` , ,@ #' followed by one form.
 func quoted(prefix, fn string, kid tok) tok {
 	ann := rep('q', len(prefix))
@@ -449,6 +484,10 @@ func init() {
 	add(vec(atom("1"), atom("2")), true)
 	add(arr2(list(atom("1"), atom("2")), list(atom("3"), atom("4"))), false)
 	add(bits("#*101"), true)
+	// the parts use the digits 0 and 1 only, so they are numbers under every *read-base*
+	add(cpx("#C(", atom("1"), atom("0")), false)
+	add(cpx("#c(", atom("1.5"), atom("-1")), false)
+	add(cpx("#C(", atom("1/10"), radix("#xFF", 2, 255)), false)
 	// quote-like
 	add(quoted("'", "quote", qa), true)
 	add(quoted("'", "quote", list(a, b)), false)
